@@ -106,6 +106,9 @@ func run() {
 			if daemonOp(out, line.Op, rawLine, scratch) {
 				continue
 			}
+			if clusterOp(out, line.Op, rawLine, scratch) {
+				continue
+			}
 			if !extraOp(out, &inst, line.Op, line) {
 				emit(out, map[string]interface{}{"id": line.ID, "error": "unknown op " + line.Op})
 			}
